@@ -76,6 +76,11 @@ func (withdrawTx) Validate(ctx *action.Context, signedTx action.SignedTx) (bool,
 	if currency.Name != withdraw.WithdrawAmount.Currency {
 		return false, errors.Wrap(action.ErrInvalidAmount, withdraw.WithdrawAmount.String())
 	}
+	// a negative amount would be a deposit: it raised the matured balance and drove the
+	// withdrawn counter negative
+	if !withdraw.WithdrawAmount.IsValid(ctx.Currencies) {
+		return false, errors.Wrap(action.ErrInvalidAmount, withdraw.WithdrawAmount.String())
+	}
 	err = withdraw.ValidatorAddress.Err()
 	if err != nil {
 		return false, errors.Wrap(action.ErrInvalidAddress, err.Error())
